@@ -1,5 +1,5 @@
 //! avh — datum-level executions (C01, C02, ...).
-use avro_verif_harness::{datum, parse_args, quiet_panics};
+use avro_verif_harness::{datum, parse_args, quiet_panics, validate};
 
 fn main() {
     quiet_panics();
@@ -7,6 +7,7 @@ fn main() {
     let rc = match args.cmd.as_str() {
         "datum-gen" => datum::cmd_gen(&args),
         "datum-run" => datum::cmd_run(&args),
+        "validate-run" => validate::cmd_run(&args),
         other => {
             eprintln!("unknown command {other:?}");
             2
